@@ -67,7 +67,8 @@ pub mod simhook {
 pub mod sync {
     pub use std::sync::*;
     use super::simhook::{blocked, point, NoYield};
-    use std::sync::{LockResult, TryLockError, TryLockResult};
+    // (explicit `pub use`: a private import would shadow the glob re-export and hide the name)
+    pub use std::sync::{LockResult, TryLockError, TryLockResult};
 
     // ---- Mutex ---------------------------------------------------------------------------------
     #[derive(Default)]
@@ -304,7 +305,7 @@ pub mod sync {
     pub mod atomic {
         pub use std::sync::atomic::*;
         use super::super::simhook::point;
-        use std::sync::atomic::Ordering;
+        pub use std::sync::atomic::Ordering;
 
         macro_rules! atomic_int {
             ($name:ident, $t:ty) => {
